@@ -9,6 +9,7 @@ import (
 	"sync"
 
 	"go.temporal.io/server/api/adminservice/v1"
+	enumsspb "go.temporal.io/server/api/enums/v1"
 	replicationpb "go.temporal.io/server/api/replication/v1"
 	"go.temporal.io/server/client/history"
 	"google.golang.org/grpc"
@@ -176,6 +177,14 @@ func (f *multiClient) All() []*cliStream {
 func msgResp(high int64, tasks ...*replicationpb.ReplicationTask) *repResp {
 	return &repResp{Attributes: &adminservice.StreamWorkflowReplicationMessagesResponse_Messages{
 		Messages: &replicationpb.WorkflowReplicationMessages{ReplicationTasks: tasks, ExclusiveHighWatermark: high}}}
+}
+
+// msgRespFrom marks the batch with its source index in the Priority field, which the proxy copies through
+// unchanged on every routed message (so the harness can tell whose watermark a target received).
+func msgRespFrom(src int, high int64, tasks ...*replicationpb.ReplicationTask) *repResp {
+	r := msgResp(high, tasks...)
+	r.GetMessages().Priority = enumsspb.TaskPriority(100 + src)
+	return r
 }
 func ackReq(low int64) *repReq {
 	return &repReq{Attributes: &adminservice.StreamWorkflowReplicationMessagesRequest_SyncReplicationState{
